@@ -47,6 +47,14 @@ CLAIMS = {
             "length 0..=255 is recorded from the real code and validated by TLC.",
             "Trusted: TLC, Message.tla, Frame.tla. Injectivity on the real code follows from the per-message round trip.",
             "DESIGN.md section 5 C05", TECH_MGV),
+    "C08": ("model_checking",
+            "System.tla composes Controller.tla with Bus.tla. TLC explores a chaos phase (arbitrary traffic to the sign, bounded) followed at any point "
+            "by configure / configure-if-needed and bounded sequences of send-pages, show, load-next and re-configure, one exchange per step, with "
+            "the C08 postconditions as invariants at every return (1.1 M states per flip style in thorough). TLC's witness paths then put a real "
+            "VirtualSign into every distinct model state (plus random-walk states on real sizes), the real Sign runs a program of calls on it for all "
+            "11 types x both flip styles x addresses, and TLC evaluates the same postconditions on the recorded outcomes and projections.",
+            "Trusted: TLC; postconditions are evaluated on state()/sign_type()/pages() of the real VirtualSign. Prior states bounded as in C13.",
+            "DESIGN.md section 5 C08", TECH_MGV),
     "C09": ("model_checking",
             "Controller.tla contains a reference-free transfer monitor (acknowledged request first; per item consecutive chunks of at most 16 bytes at "
             "offsets 0,16,32,.. whose concatenation is the item; count = chunks since the request; result asked only afterwards). TLC checks it as an "
